@@ -6,7 +6,7 @@ import ast
 
 from sa.astutil import arg_or_kw, call_name, calls_in, contains, enclosing_tests, expand, flow_closure, kw, local_defs, names_in, returns_of, stores
 from sa.cfg import defs_reaching
-from sa.index import AnalysisError, dotted, enclosing_stmt, norm, walk_ordered
+from sa.index import AnalysisError, FuncInfo, dotted, enclosing_stmt, norm, walk_ordered
 from sa.poly import Poly, to_poly
 from sa.symexec import SymExec
 
@@ -235,4 +235,61 @@ def r6_every_interval_is_integrated_from_its_own_start(ctx):
     r3_representation_switch(ctx)
 
 
-RULES = [r6_every_interval_is_integrated_from_its_own_start, r5_expectation_conversion_linear, r4_no_inplace_on_memoised, r1_linear_in_time_step, r2_additive_deposit, r3_clock_and_retention]
+MUTATORS_ = {"append", "extend", "insert", "pop", "remove", "clear", "sort", "reverse", "update", "setdefault", "popitem", "fill", "resize", "itemset", "put"}
+
+
+def _inplace_writes(fn, names: set) -> list:
+    """Statements of ``fn`` that change, in place, an object named in ``names`` (or a plain alias of it)."""
+    names = set(names)
+    grew = True
+    while grew:
+        grew = False
+        for st in walk_ordered(fn.node):
+            if isinstance(st, (ast.Assign, ast.AnnAssign)) and isinstance(getattr(st, "value", None), ast.Name) and st.value.id in names:
+                for t in (st.targets if isinstance(st, ast.Assign) else [st.target]):
+                    if isinstance(t, ast.Name) and t.id not in names:
+                        names.add(t.id)
+                        grew = True
+    out = []
+    for st in walk_ordered(fn.node):
+        if isinstance(st, (ast.Assign, ast.AugAssign, ast.AnnAssign)):
+            for t in (st.targets if isinstance(st, ast.Assign) else [st.target]):
+                if isinstance(t, ast.Subscript) and isinstance(t.value, ast.Name) and t.value.id in names:
+                    out.append(st)
+                if isinstance(st, ast.AugAssign) and isinstance(t, ast.Name) and t.id in names:
+                    out.append(st)  # `p *= 2` on a list / array argument changes the caller's object
+        if isinstance(st, ast.Expr) and isinstance(st.value, ast.Call) and isinstance(st.value.func, ast.Attribute) and st.value.func.attr in MUTATORS_ and isinstance(st.value.func.value, ast.Name) and st.value.func.value.id in names:
+            out.append(st)
+    return out
+
+
+def r7_arguments_are_not_consumed(ctx):
+    """A model runs once per readout with the SAME argument objects (the lists / arrays of its configuration): a flux-integrating model, or a helper of its module that is handed such an argument, must not change it in place (`size[0] /= 2`, `values.sort()`), otherwise every readout sees what the previous one left and the collected charge depends on the number of readouts."""
+    n = 0
+    for q, _bucket in MODELS:
+        f = ctx.func(q)
+        user_params = set(f.params[1:])
+        n += 1
+        bad = []
+        seen_ = set()
+
+        def visit(fn, params_, depth):
+            if (fn.qual, tuple(sorted(params_))) in seen_ or depth > 3 or not params_:
+                return
+            seen_.add((fn.qual, tuple(sorted(params_))))
+            bad.extend((fn, st) for st in _inplace_writes(fn, params_))
+            for cs in ctx.R.call_sites(fn):
+                if not isinstance(cs.node, ast.Call):
+                    continue
+                for cal in cs.callees:
+                    if not isinstance(cal, FuncInfo) or cal.module is not fn.module or cal is fn:
+                        continue
+                    handed = {pn for pn in cal.params if (lambda a: a is not None and isinstance(a, ast.Name) and a.id in params_)(cs.arg_for(cal, pn))}
+                    visit(cal, handed, depth + 1)
+
+        visit(f, user_params, 0)
+        ctx.check(not bad, f.qual + "#arguments-kept", "the configured argument objects are only read" if not bad else f"`{norm(bad[0][1])[:60]}` in {bad[0][0].name} changes a configured argument in place: the next readout (and every later run) starts from the changed value", where=bad[0][0] if bad else f, node=bad[0][1] if bad else f.node)
+    ctx.floor(n, 4)
+
+
+RULES = [r7_arguments_are_not_consumed, r6_every_interval_is_integrated_from_its_own_start, r5_expectation_conversion_linear, r4_no_inplace_on_memoised, r1_linear_in_time_step, r2_additive_deposit, r3_clock_and_retention]
